@@ -75,6 +75,13 @@ var c12Ints = func() []string {
 }()
 
 var c12Texts = [][]byte{[]byte(""), []byte("a"), []byte("é"), []byte("b c"), []byte("a-long-key-of-more-than-fifteen-bytes"), []byte("中文")}
+func init() {
+	// strings that spell a time key exactly as the library prints it: a string and a time are different values
+	for _, tm := range c12Times {
+		c12Texts = append(c12Texts, []byte(tm.t.String()), []byte(tm.cte))
+	}
+}
+
 var c12UIDs = [][]byte{make([]byte, 16), {1, 2, 3, 4, 5, 6, 7, 8, 9, 10, 11, 12, 13, 14, 15, 16}}
 
 func genC12Key(t *rapid.T, via string) C12Key {
